@@ -134,6 +134,11 @@ func (g *Generator) collectMessageRecursive(message *protogen.Message, processed
 	// Process this message
 	g.processMessage(message)
 
+	// The fields of a well-known type with a JSON form of its own are not part of the document
+	if wellKnownTypeSchema(message) != nil {
+		return
+	}
+
 	// Process all field types
 	for _, field := range message.Fields {
 		if field.Message != nil {
@@ -158,6 +163,51 @@ func (g *Generator) collectMessageRecursive(message *protogen.Message, processed
 	}
 }
 
+// wellKnownTypeSchema returns the schema of the proto3 JSON form of the well-known types that are
+// not written as an object of their proto fields: Duration ("3.5s"), FieldMask ("a.b,c"), the
+// wrapper types (the wrapped value itself), Struct / Value / ListValue (arbitrary JSON). It returns
+// nil for every other message. (Timestamp is handled per field, where its format annotation is.)
+func wellKnownTypeSchema(message *protogen.Message) *base.Schema {
+	switch message.Desc.FullName() {
+	case "google.protobuf.Duration":
+		return &base.Schema{
+			Type:        []string{"string"},
+			Description: `Signed seconds with up to nine fractional digits, followed by "s" (for example "3.5s")`,
+		}
+	case "google.protobuf.FieldMask":
+		return &base.Schema{Type: []string{"string"}, Description: "Comma-separated field paths"}
+	case "google.protobuf.StringValue":
+		return &base.Schema{Type: []string{"string"}}
+	case "google.protobuf.BytesValue":
+		return &base.Schema{Type: []string{"string"}, Format: "byte"}
+	case "google.protobuf.BoolValue":
+		return &base.Schema{Type: []string{"boolean"}}
+	case "google.protobuf.Int32Value", "google.protobuf.UInt32Value":
+		return &base.Schema{Type: []string{headerTypeInteger}, Format: "int32"}
+	case "google.protobuf.Int64Value", "google.protobuf.UInt64Value":
+		// 64-bit integers are written as decimal strings in proto3 JSON
+		return &base.Schema{Type: []string{"string"}, Format: "int64"}
+	case "google.protobuf.FloatValue":
+		return &base.Schema{Type: []string{"number"}, Format: "float"}
+	case "google.protobuf.DoubleValue":
+		return &base.Schema{Type: []string{"number"}, Format: "double"}
+	case "google.protobuf.Struct":
+		return &base.Schema{
+			Type:                 []string{"object"},
+			AdditionalProperties: &base.DynamicValue[*base.SchemaProxy, bool]{N: 1, B: true},
+		}
+	case "google.protobuf.Value":
+		return &base.Schema{Description: "Any JSON value"}
+	case "google.protobuf.ListValue":
+		return &base.Schema{
+			Type:  []string{"array"},
+			Items: &base.DynamicValue[*base.SchemaProxy, bool]{A: base.CreateSchemaProxy(&base.Schema{})},
+		}
+	default:
+		return nil
+	}
+}
+
 // getSchemaName generates a schema name for a protobuf message.
 // Since each service generates its own OpenAPI file, we can use simple message names
 // without package prefixes to avoid collisions.
@@ -171,6 +221,12 @@ func (g *Generator) processMessage(message *protogen.Message) {
 	schemaName := g.getSchemaName(message)
 	g.schemas.Set(schemaName, schema)
 
+	// (the nested declarations of a well-known type with a JSON form of its own, such as the map
+	// entry of Struct, are no part of the document)
+	if wellKnownTypeSchema(message) != nil {
+		return
+	}
+
 	// Process nested messages recursively
 	for _, nested := range message.Messages {
 		g.processMessage(nested)
@@ -181,6 +237,11 @@ func (g *Generator) processMessage(message *protogen.Message) {
 //
 
 func (g *Generator) buildObjectSchema(message *protogen.Message) *base.SchemaProxy {
+	// Well-known types whose proto3 JSON form is not an object of their proto fields
+	if schema := wellKnownTypeSchema(message); schema != nil {
+		return base.CreateSchemaProxy(schema)
+	}
+
 	// Check for root-level unwrap
 	if rootUnwrap := getRootUnwrapInfo(message); rootUnwrap != nil {
 		return g.buildRootUnwrapSchema(message, rootUnwrap)
